@@ -168,6 +168,10 @@ namespace xtl
         /// Exchange the states of *this and rhs.
         void swap(any& rhs) noexcept
         {
+            if (this == &rhs)
+            {
+                return;
+            }
             if (this->vtable != rhs.vtable)
             {
                 any tmp(std::move(rhs));
